@@ -215,7 +215,10 @@ def run_check(pid, tier, seed, mc_cfgs, profiles, thorough_profiles, assumptions
     # ---- design check + behaviours
     mcs, scripts = [], []
     for cfg in mc_cfgs[1 if thorough else 0]:
-        r = vlib.tlc_mc(pid, mc_module, cfg, workers=12, timeout=3000 if thorough else 900)
+        mod = mc_module
+        if ":" in cfg:
+            mod, cfg = cfg.split(":")
+        r = vlib.tlc_mc(pid, mod, cfg, workers=12, timeout=3000 if thorough else 900)
         if r["violated"]:
             raise vlib.ToolError("design model violates %s in %s (spec needs correction)" % (r["violated"], cfg))
         vlib.require_coverage(r, list(mc_actions), cfg)
@@ -227,7 +230,10 @@ def run_check(pid, tier, seed, mc_cfgs, profiles, thorough_profiles, assumptions
         mcs.append((cfg, r))
     # spec-side rehearsal: with the guard removed TLC must find the loss (the invariants are not vacuous)
     for cfg in mutant_cfgs:
-        r = vlib.tlc_mc(pid, mc_module, cfg, workers=4, timeout=600, coverage=False)
+        mod = mc_module
+        if ":" in cfg:
+            mod, cfg = cfg.split(":")
+        r = vlib.tlc_mc(pid, mod, cfg, workers=4, timeout=600, coverage=False)
         if not r["violated"]:
             raise vlib.ToolError("spec mutant %s is not rejected by TLC: invariants are vacuous" % cfg)
         vlib.log("[mc] spec mutant %s violates %s as expected" % (cfg, r["violated"]))
